@@ -347,10 +347,11 @@ func reachesReturnWithoutUnlessNil(f *ssa.Function, ret *ssa.Return, call, fld s
 		if in == ssa.Instruction(ret) {
 			return Hit
 		}
-		if OrDeferred(func(x ssa.Instruction) bool {
+		direct := func(x ssa.Instruction) bool {
 			ci, ok := x.(ssa.CallInstruction)
 			return ok && CalleeOf(ci).Name == call
-		})(in) {
+		}
+		if OrDeferred(direct)(in) || (in.Parent() == f && performsVia(in, direct, nil)) {
 			return Stop
 		}
 		return Cont
